@@ -11,7 +11,7 @@ package preference_reversal
 //@ pred observedIn(r utils.ValueRange, d *model.DecisionMakingParams, id string) = model.observedAll(r, d.ConsideredAlternatives, d.NotConsideredAlternatives, id)
 //@   opaque
 //@ func getCriteriaToReverse
-//@   property C16 C07 C09 C01
+//@   property C16 C07 C09 C01 C20
 //@   ensures [selected] fresh(result) && fresh(*result) && len(*result) == len(*criteriaToReverse)
 //@             && forall k int :: 0 <= k && k < len(*criteriaToReverse) ==> (*result)[k].criterion == (*criteriaToReverse)[k] && (*result)[k].valRange != nil
 //@   ensures [declared_range] forall k int :: 0 <= k && k < len(*criteriaToReverse) && (*criteriaToReverse)[k].ValuesRange != nil ==> (*result)[k].valRange == (*criteriaToReverse)[k].ValuesRange
@@ -38,7 +38,7 @@ package preference_reversal
 //@          ((q in nw.Criteria <==> q in od.Criteria) && (q in nw.Criteria ==> nw.Criteria[q] == od.Criteria[q])))
 
 //@ func reverseCriteriaForEachAlternative
-//@   property C16 C09 C07 C01
+//@   property C16 C09 C07 C01 C20
 //@   requires forall i int, j int :: 0 <= i && i < j && j < len(*criteriaToReverse) ==> (*criteriaToReverse)[i].criterion.Id != (*criteriaToReverse)[j].criterion.Id
 //@   requires forall k int :: 0 <= k && k < len(*criteriaToReverse) ==> (*criteriaToReverse)[k].valRange != nil
 //@   ensures [all_alternatives] fresh(result0) && fresh(*result0) && len(*result0) == len(resParams.ConsideredAlternatives) + len(resParams.NotConsideredAlternatives)
@@ -92,7 +92,7 @@ package preference_reversal
 //@             ((q in *newCriteria <==> q in a.Criteria) && (q in a.Criteria ==> (*newCriteria)[q] == a.Criteria[q]))
 
 //@ func updateAlternativesWithReversedCriteriaValues
-//@   property C16 C09 C07 C01
+//@   property C16 C09 C07 C01 C20
 //@   requires forall i int, j int :: 0 <= i && i < j && j < len(*criteriaToReverse) ==> (*criteriaToReverse)[i].criterion.Id != (*criteriaToReverse)[j].criterion.Id
 //@   requires forall k int :: 0 <= k && k < len(*criteriaToReverse) ==> (*criteriaToReverse)[k].valRange != nil
 //@   requires distinctAll(resParams.ConsideredAlternatives, resParams.NotConsideredAlternatives)
@@ -105,7 +105,7 @@ package preference_reversal
 //@   ensures [report_shape] len(*result.alternativesValues) == len(*criteriaToReverse)
 
 //@ func prepareReverseResult
-//@   property C16 C07 C09 C01
+//@   property C16 C07 C09 C01 C20
 //@   requires len(*reverseResult.alternativesValues) >= len(*criteriaToReverse)
 //@   ensures [report] fresh(result) && len(result) == len(*criteriaToReverse) && forall k int :: 0 <= k && k < len(*criteriaToReverse) ==>
 //@             result[k].Id == (*criteriaToReverse)[k].criterion.Id && result[k].Type == (*criteriaToReverse)[k].criterion.Type
@@ -129,7 +129,7 @@ package preference_reversal
 //@   returnhint [ranges_come_from_the_current_state] forall k int :: 0 <= k && k < len(*criteriaToReverse) ==>
 //@             ((*criteriaToReverse)[k].criterion.ValuesRange != nil ? (*criteriaToReverse)[k].valRange == (*criteriaToReverse)[k].criterion.ValuesRange
 //@               : observedIn(*(*criteriaToReverse)[k].valRange, current, (*criteriaToReverse)[k].criterion.Id))
-//@   property C16 C09 C07 C01
+//@   property C16 C09 C07 C01 C20
 //@   requires model.distinctCriteria(current.Criteria) && model.validParams(*listener, current.MethodParameters) && model.coversAll(*listener, current.MethodParameters, current.Criteria)
 //@   requires distinctAll(current.ConsideredAlternatives, current.NotConsideredAlternatives)
 //@   ensures [untouched] result.DMP.Criteria == current.Criteria && result.DMP.MethodParameters == current.MethodParameters
@@ -177,6 +177,6 @@ package preference_reversal
 
 // ---- registered names (what a request must say to select this object; what error messages list)
 //@ func (*PreferenceReversal).Identifier
-//@   property C07 C09 C16 C20
+//@   property C07 C09 C16 C20 C01 C03 C04 C05 C06 C08 C11 C12 C13 C14 C15 C17 C18 C19
 //@   nopanic
 //@   ensures [name] result == "preferenceReversal"
